@@ -47,6 +47,27 @@ def run(ctx):
     if lo is None:
         chk.bad(R1, VAL, 'loop over the loose objects', 'validate() no longer iterates over every key of the loose listing', where=f'{v.module.relpath}:{v.lineno}')
     else:
+        # the collection iterated is the whole listing: nothing is removed from it and no filter wraps it
+        if isinstance(lo.iter, ast.Name):
+            coll = lo.iter.id
+            srcv = last_assignment(coll, v, lo.lineno)
+            shrink = [c for c in walk_local(v.node) if isinstance(c, ast.Call) and isinstance(c.func, ast.Attribute) and isinstance(c.func.value, ast.Name) and c.func.value.id == coll
+                      and c.func.attr in ('difference_update', 'discard', 'remove', 'pop', 'clear', 'intersection_update', 'symmetric_difference_update') and c.lineno < lo.lineno]
+            reass = [n for n in walk_local(v.node) if isinstance(n, (ast.Assign, ast.AugAssign)) and any(isinstance(t, ast.Name) and t.id == coll for t in (n.targets if isinstance(n, ast.Assign) else [n.target]))]
+            whole = srcv is not None and norm(srcv) in ('set(self._list_loose())', 'list(self._list_loose())', 'sorted(self._list_loose())', 'self._list_loose()', 'tuple(self._list_loose())')
+            if shrink or len(reass) != 1 or not whole:
+                what = shrink[0] if shrink else (reass[-1] if reass else lo)
+                chk.bad(R1, VAL, norm(what)[:120], f'the loose keys that get rehashed (`{coll}`) are not the whole loose listing: some loose files are excluded from validation, so damage to them '
+                        '(e.g. to the loose copy of an object that is also packed, which seeking readers use) is never reported', where=f'{v.module.relpath}:{what.lineno}')
+            else:
+                chk.ok(R1, VAL, f'{coll} = {norm(srcv)}', detail='the loop visits every key of the loose listing (no removal, no filter)')
+        elif '_list_loose()' in norm(lo.iter) and not any(isinstance(x, (ast.GeneratorExp, ast.ListComp, ast.SetComp)) for x in ast.walk(lo.iter)):
+            chk.ok(R1, VAL, norm(lo.iter), detail='the loop visits every key of the loose listing')
+        else:
+            chk.bad(R1, VAL, norm(lo.iter)[:120], 'the loose keys that get rehashed are a filtered subset of the loose listing', where=f'{v.module.relpath}:{lo.lineno}')
+        skips = [x for x in ast.walk(lo) if isinstance(x, (ast.Continue, ast.Break))]
+        if skips:
+            chk.bad(R1, VAL, f'{type(skips[0]).__name__.lower()} in the loose loop', 'some loose objects are skipped by the validation loop', where=f'{v.module.relpath}:{skips[0].lineno}')
         key = lo.target.id if isinstance(lo.target, ast.Name) else None
         calls = [c for c in ast.walk(lo) if isinstance(c, ast.Call) and norm(c.func) == 'compute_hash_and_size']
         opens = [c for c in ast.walk(lo) if isinstance(c, ast.Call) and norm(c.func) == 'open']
@@ -97,16 +118,30 @@ def run(ctx):
         chk.bad(R2, VAL, norm(call)[:80], 'the per-pack validator is not called with the loop\'s pack id', where=f'{v.module.relpath}:{call.lineno}')
     # rows of the pack in offset order
     rl = next((n for n in walk_local(p.node) if isinstance(n, ast.For) and isinstance(n.iter, ast.Call) and norm(n.iter.func).endswith('.execute')), None)
+    inf = None
+    src_fn = p
+    if rl is None:
+        # the rows may come from a local generator helper: for ... in helper(): -- look the SELECT up inside it
+        for n in walk_local(p.node):
+            if isinstance(n, ast.For) and isinstance(n.iter, ast.Call) and isinstance(n.iter.func, ast.Name) and n.iter.func.id in p.nested and isinstance(n.target, ast.Tuple):
+                h = p.nested[n.iter.func.id]
+                ex = [c for c in walk_local(h.node) if isinstance(c, ast.Call) and isinstance(c.func, ast.Attribute) and c.func.attr == 'execute' and c.args]
+                if len(ex) == 1:
+                    rl, src_fn = n, h
+                    inf = sql_statement(prog, ex[0].args[0], h, ex[0].lineno)
     chk.require(rl is not None, '_validate_hashkeys_pack: row loop not found')
-    inf = sql_statement(prog, rl.iter.args[0], p, rl.lineno)
+    if inf is None:
+        inf = sql_statement(prog, rl.iter.args[0], p, rl.lineno)
     chk.require(inf is not None, '_validate_hashkeys_pack: SELECT not recognised')
     cols = [c.split('.')[-1] for c in inf['cols']]
     tv = [e.id for e in rl.target.elts] if isinstance(rl.target, ast.Tuple) else []
-    if cols == tv and any('pack_id == pack_id' in w.replace('Obj.', '') for w in inf['where']) and [o.split('.')[-1] for o in inf['order_by']] == ['offset']:
+    where = [w.replace('Obj.', '').replace(' ', '') for w in inf['where']]
+    if cols == tv and where == ['pack_id==pack_id'] and [o.split('.')[-1] for o in inf['order_by']] == ['offset'] and not inf.get('limit'):
         chk.ok(R2, VPK, f"SELECT {cols} WHERE {inf['where']} ORDER BY offset", detail='all rows of the pack, in offset order, unpacked positionally into like-named variables')
     else:
-        chk.bad(R2, VPK, norm(rl.iter)[:100], f'rows are not (all rows of this pack ordered by offset) unpacked into like-named variables: cols={cols} vars={tv} where={inf["where"]} order={inf["order_by"]}',
-                where=f'{p.module.relpath}:{rl.lineno}')
+        chk.bad(R2, VPK, norm(rl.iter)[:100], f'rows are not (all rows of this pack ordered by offset) unpacked into like-named variables: cols={cols} vars={tv} where={inf["where"]} order={inf["order_by"]} '
+                f'limit={inf.get("limit")} -- any further filter / paging (e.g. on the non-unique offset column) can skip rows, whose damage then goes unreported',
+                where=f'{src_fn.module.relpath}:{rl.lineno}')
     ch = [c for c in ast.walk(rl) if isinstance(c, ast.Call) and norm(c.func) == 'compute_hash_and_size']
     chk.require(ch, '_validate_hashkeys_pack: compute_hash_and_size call not found')
     asg = ch[0]._parent
